@@ -13,6 +13,7 @@ RULES = {
     "C11.R2": "linear backward (label typing, input ranks 2..4): input/weight/bias gradients have the shapes of their primals, each guarded by needs_input_grad[i] of the matching forward parameter, returned in order; no constant factor",
     "C11.R6": "the dynamic weight path stays in the autograd graph: no no_grad / set_grad_enabled / inference_mode context and no .detach() / .data around the quantization of self.weight in qweight, forward or qforward",
     "C11.R7": "the linear backward contracts dequantized values: no raw payload (._data) enters a matmul there (unscaled codes accumulate beyond the float16 range and would be rounded with another scale order than the forward)",
+    "C11.R8": "any input layout: the linear backward flattens the incoming gradient and the saved tensors with reshape, never with view",
     "C11.R3": "no staleness: qweight is a plain property that re-quantizes self.weight on every access while unfrozen",
     "C11.R4": "every torch.nn.Parameter built from a quantized tensor passes requires_grad=False",
     "C11.R5": "the linear dispatch passes (input, other, bias) in order to the autograd function",
@@ -263,3 +264,8 @@ def raw_payload_backward(chk):
     chk.require("C11.R7", site, not bad, f"QTensorLinear.backward: {n} contraction(s), raw payloads entering one: {bad}", "QTensorLinear.backward", "raw payload in a backward contraction",
                 "a float16 module with quantized activations and a long input (hundreds of rows): the sum of unscaled codes exceeds 65504, the weight gradient is inf while the float twin's is finite")
     chk.floor("C11.R7", n, 2, "contractions in the linear backward")
+    from ..core import views_on_inputs
+    saved = {t_.id for st in ast.walk(bwd) if isinstance(st, ast.Assign) and "saved_tensors" in U(st.value) for tt in st.targets for t_ in (tt.elts if isinstance(tt, (ast.Tuple, ast.List)) else [tt]) if isinstance(t_, ast.Name)}
+    vs = views_on_inputs(bwd, saved)
+    chk.require("C11.R8", site, not vs, f"QTensorLinear.backward flattens gO and the saved tensors with reshape ({[U(v)[:40] for v in vs]})", "QTensorLinear.backward", "view on a saved tensor or gradient",
+                "a non-contiguous input (x.transpose(1, 2)) to an unfrozen quantized linear: backward raises `view size is not compatible` where the float module's backward works")
